@@ -38,6 +38,8 @@ KEYS = tuple(FLOORS["quick"].keys()) + ("demux_reconfigurations", "splitter_rewr
 # floors for the situations added with the later rounds of seeded changes (evidence that they were really exercised)
 FLOORS["quick"].update({'fib_tables_with_default_route': 70, 'hub_synchronous_answers': 200})
 FLOORS["thorough"].update({'fib_tables_with_default_route': 350, 'hub_synchronous_answers': 1000})
+FLOORS["quick"].update({'hub_endpoints_renamed_after_attach': 80})
+FLOORS["thorough"].update({'hub_endpoints_renamed_after_attach': 400})
 
 
 def plan(tier):
